@@ -395,6 +395,11 @@ def gen_cases(tier, rng, w):
                 cs.append({"op": "dc", "v2": 1, "family": f["family"], "revision": f["revision"], "keys": [f"{kt}_{ids[0]}"], "rot_id": 0,
                            "rotk": f"{kt}_{ids[0]}", "dck": f"{kt}_{ids[1]}", "uuid": uu.hex(), "socu": val32(), "vu": 0, "beacon": 0,
                            "fuse_version": rng.choice([0, 1, 255])})
+        # uuids with leading zero bytes (the configuration gives the uuid as a number)
+        for uu in (bytes(15) + b"\x01", bytes(4) + bytes(rng.getrandbits(8) | 1 for _ in range(12)), bytes([0]) + bytes(rng.getrandbits(8) | 1 for _ in range(15)),
+                   bytes(16)):
+            cs.append({"op": "dc", "v2": 1, "family": f["family"], "revision": f["revision"], "keys": ["p256_0"], "rot_id": 0, "rotk": "p256_0",
+                       "dck": "p256_1", "uuid": uu.hex(), "socu": val32(), "vu": 0, "beacon": 0, "fuse_version": 0})
     streams["EdgeLock container-v2 credentials (AHAB certificate; oracle only)"] = cs
     # ---- 6. object history: the SAME object exported twice, re-signed, changed through its public members and exported again
     cs = []
@@ -482,6 +487,30 @@ def derived_streams(tier, rng, w, dc_cases, dc_results):
         for m in muts:
             cs.append({"op": "parse", "data": m.hex()})
     streams["DebugCredentialCertificate.parse of truncated / re-versioned / re-classed / flag-damaged credentials"] = cs
+    # ---- parse of damaged container-v2 credentials (AHAB certificate): header, permissions, offsets, record, data, signature
+    cs = []
+    seen2 = set()
+    for c, r in zip(dc_cases, dc_results):
+        if not (c.get("v2") and isinstance(r.get("export"), str)):
+            continue
+        key = (ktype(c["dck"]), 0 if not thorough else c["family"])
+        if key in seen2:
+            continue
+        seen2.add(key)
+        b = bytes.fromhex(r["export"])
+        so = struct.unpack_from("<H", b, 4)[0]
+        muts = [b, b + b"\x5a" * 5, b[:-1], b[:so + 8], b[:so + 7], b[:so], b[:116], b[:40], b[:39], b[:4], b""]
+        for off, vals in ((0, (1, 3)), (1, (b[1] ^ 1, 0xFF)), (2, (0xFF,)), (3, (0xAE, 0)), (4, (b[4] ^ 4, 0)), (5, (1,)), (6, (b[6] ^ 1,)),
+                          (7, (b[7] ^ 2, 0)), (8, (0, 0xFF)), (0x14, (7,)), (0x18, (0,)), (40, (0xE0,)), (41, (b[41] ^ 8, 0x4B)),
+                          (43, (0x21, 0x27, 0xD1, 0x29)), (44, (1, 7, 9)), (45, (1, 2, 5, 4, 0)), (47, (0x80,)), (48, (1,)),
+                          (52, (b[52] ^ 1,)), (116, (1,)), (117, (b[117] ^ 1, 3, 8, 11)), (119, (0x5C,)), (120, (1, 3)), (124, (b[124] ^ 1,)),
+                          (so, (1,)), (so + 1, (b[so + 1] ^ 1, 7, 8)), (so + 3, (0xD7,)), (so + 8, (b[so + 8] ^ 1,))):
+            for v in vals:
+                if off < len(b) and b[off] != v:
+                    muts.append(b[:off] + bytes([v & 0xFF]) + b[off + 1:])
+        for m in muts:
+            cs.append({"op": "parsev2", "data": m.hex()})
+    streams["DebugCredentialCertificate.parse of damaged container-v2 credentials (AHAB certificate)"] = cs
     # ---- challenges
     cs = []
     for s in soccs + [0x77]:
@@ -694,8 +723,11 @@ def oracle_dcv2(case, r, w):
     out = []
     f = w.facts(case)
 
+    # recorded class C15-F6: a uuid whose configured value needs fewer than 13 bytes (four or more leading zero bytes)
+    tag = "uuid-leading-zeros:" if len(uuid_bytes_v2(case["uuid"])) != 16 else ""
+
     def bad(issue, msg):
-        out.append((f"dcv2:{issue}", f"{msg} [family {case['family']} rev {case['revision']} signer {case['rotk']} dck {case['dck']} "
+        out.append((f"dcv2:{tag}{issue}", f"{msg} [family {case['family']} rev {case['revision']} signer {case['rotk']} dck {case['dck']} "
                     f"uuid {case['uuid']} socu {case['socu']}]"))
     for step in ("create", "sign", "export"):
         v = r.get(step)
@@ -943,6 +975,57 @@ def lit(v):
     return vlib.coq_lit(v)
 
 
+def uuid_bytes_v2(hexstr):
+    """what AhabCertificate.load_from_config makes of the configured uuid: value_to_bytes("0x...") = the integer in the fewest
+    bytes, rounded up to 1, 2, 4, 8, 12, 16, ... (spsdk.utils.misc.get_bytes_cnt_of_int with align_to_2n, C20)"""
+    v = int(hexstr, 16)
+    n = max(1, (v.bit_length() + 7) // 8)
+    if n > 2:
+        n = (n + 3) // 4 * 4
+    return v.to_bytes(n, "big")
+
+
+def cert_value_from_impl(f):
+    """impl fields of a container-v2 credential -> the value DatV2Model.val_of_cert prints"""
+    pk, pkd = f["pk"], f["pkd"]
+    return VL([VI(f["len"]), VI(f["sig_off"]), VI(f["perm"]), hexb(f["perm_data"]), VI(f["fuse"]), hexb(f["uuid"]), VI(f["socc"]),
+               VI(f["socu"]), VI(f["beacon"]), VL([VI(pk[0]), VI(pk[1]), VI(pk[2]), VI(pk[3]), VI(pk[4]), hexb(pk[5])]),
+               VL([VI(pkd[0]), VI(pkd[1]), hexb(pkd[2])]), VI(f["sig_len"]), hexb(f["sig"]),
+               VE(f["key"]["err"]) if isinstance(f["key"], dict) else key_from_impl(f["key"])])
+
+
+def dcv2_expr(case, r, w):
+    f = w.facts(case)
+    sig = bytes.fromhex(r.get("sig") or "") if isinstance(r.get("sign"), str) else b""
+    args = [VI(f["socc"]), VI(case["socu"]), VB(uuid_bytes_v2(case["uuid"])), VI(case.get("fuse_version", 0)),
+            key_lit(w.pool[case["dck"]]), VB(sig)]
+    return "run_case_v2 1 [" + "; ".join(lit(a) for a in args) + "]"
+
+
+def dcv2_compare(case, r, mv):
+    """exact correspondence of the container-v2 life cycle: exported bytes, parsed object, equality, re-export"""
+    c = r["create"]
+    if "err" in c:
+        return mv == VE(c["err"]), f"create: impl error {c['err']} model {str(mv)[:80]}"
+    if mv[0] != "l" or len(mv[1]) != 4:
+        return False, f"model {str(mv)[:120]}"
+    _obj, mex, mflag, mparse = mv[1]
+    ex = r["export"]
+    iex = VE(ex["err"]) if isinstance(ex, dict) else hexb(ex)
+    if iex != mex:
+        return False, "export: " + str(first_diff(iex, mex))
+    if isinstance(ex, str) and mflag != VI(1):
+        return False, "the signed message of the model is not the exported prefix of length signature_offset"
+    if isinstance(ex, dict):
+        return True, ""
+    p = r["parse"]
+    if "err" in p:
+        ip = VE(p["err"])
+    else:
+        ip = VL([cert_value_from_impl(p["fields"]), e_or(p["eq"], lambda b: VI(int(b))), cmp_b(ex, p["reexport"])])
+    return ip == mparse, "parse: " + str(first_diff(ip, mparse) if ip[0] == mparse[0] else (str(ip)[:100], str(mparse)[:100]))
+
+
 def dc_expr(case, r, w):
     f = w.facts(case)
     sig = bytes.fromhex(r.get("sig") or "") if isinstance(r.get("sign"), str) else b""
@@ -964,7 +1047,7 @@ def run(tier):
     except Exception as ex:  # noqa
         rep.obligation("translate:spsdk/dat formats, version tables, database facts -> Gen/GenDat.v", False, repr(ex))
     # (P) proofs
-    model_ok, mlog = vlib.coq_make(["Model/DatModel.vo"])
+    model_ok, mlog = vlib.coq_make(["Model/DatModel.vo", "Model/DatV2Model.vo"])
     if not model_ok:
         rep.obligation("build:Model/DatModel.vo (layouts of the model = layouts extracted from the source)", False, mlog)
     vlib.check_theorems(rep, PID, THEOREMS, ["Proofs/DatProofs.vo", "Proofs/DatCreateProofs.vo"])
@@ -1092,7 +1175,13 @@ def run(tier):
     if model_ok:
         exprs, plan = [], []
         for i, (c, r) in enumerate(zip(flat, impl)):
-            if c["op"] in ("dc", "dar"):
+            if c["op"] == "dc" and c.get("v2"):
+                exprs.append(dcv2_expr(c, r, w))
+                plan.append((i, "dcv2"))
+            elif c["op"] == "parsev2":
+                exprs.append(f"run_case_v2 2 [{lit(VB(bytes.fromhex(c['data'])))}]")
+                plan.append((i, "parsev2"))
+            elif c["op"] in ("dc", "dar"):
                 if w.facts(c)["ele"] and w.facts(c)["cnt"] != 1:
                     continue
                 exprs.append(dc_expr(c, r, w))
@@ -1123,7 +1212,7 @@ def run(tier):
                 plan.append((i, "validate"))
         try:
             t_model = time.time()
-            mres = vlib.run_model_cases("c15", "Value RotModel DatModel", exprs, shard=(60 if tier == "thorough" else 40), timeout=1500)
+            mres = vlib.run_model_cases("c15", "Value RotModel DatModel DatV2Model", exprs, shard=(60 if tier == "thorough" else 40), timeout=1500)
             vlib.log(f"  model: {len(exprs)} expressions in {time.time() - t_model:.1f} s")
             for (i, kind), mv in zip(plan, mres):
                 c, r = flat[i], impl[i]
@@ -1133,7 +1222,20 @@ def run(tier):
                 ncmp += 1
                 ok = True
                 detail = ""
-                if kind == "dc":
+                if kind == "dcv2":
+                    ok, detail = dcv2_compare(c, r, mv)
+                elif kind == "parsev2":
+                    p = r["parse"]
+                    if "err" in p:
+                        iv = VE(p["err"])
+                    elif p["fields"]["cls"] == "DebugCredentialEdgeLockEnclaveV2":
+                        iv = VL([VI(0), cert_value_from_impl(p["fields"]),
+                                 e_or(p["reexport"], lambda h: VI(1) if c["data"].startswith(h) else hexb(h))])
+                    else:
+                        iv = VL([VI(1), VI(KLASS.get(p["fields"]["cls"], 9))])
+                    ok = same(iv, mv)
+                    detail = "impl vs model " + str(first_diff(iv, mv) if iv[0] == mv[0] else (str(iv)[:120], str(mv)[:120]))
+                elif kind == "dc":
                     iv = dc_value_from_impl(r)
                     mv2, tbs = strip_tbs(mv)
                     ok = same(iv, mv2)
